@@ -6,6 +6,8 @@ import (
 	"fmt"
 	"io"
 	"os"
+
+	"github.com/klev-dev/klevdb/pkg/verifhook"
 )
 
 var randEncode = base32.NewEncoding("0123456789abcdefghijklmnopqrstuv").WithPadding(base32.NoPadding)
@@ -59,6 +61,7 @@ func copyFile(src, dst string) error {
 	if err := fdst.Close(); err != nil {
 		return fmt.Errorf("copy dst close: %w", err)
 	}
+	verifhook.FS("copied", dst, stat.Size(), 0)
 	if err := os.Chtimes(dst, stat.ModTime(), stat.ModTime()); err != nil {
 		return fmt.Errorf("copy dst chtimes: %w", err)
 	}
